@@ -226,7 +226,7 @@ theorem buildVarProgress_WF (id : Nat) (v : Variant) (qs : Int) : EntryWF ⟨id,
 
 /-! ### a finished entry is left alone -/
 
-theorem mem_enumFrom {α} (l : List α) (n : Nat) (a : α) (h : a ∈ l) : ∃ k, (k, a) ∈ enumFrom n l := by
+theorem mem_enumFrom_ex {α} (l : List α) (n : Nat) (a : α) (h : a ∈ l) : ∃ k, (k, a) ∈ enumFrom n l := by
   induction l generalizing n with
   | nil => cases h
   | cons x xs ih =>
@@ -237,7 +237,7 @@ theorem mem_enumFrom {α} (l : List α) (n : Nat) (a : α) (h : a ∈ l) : ∃ k
 
 theorem pending_fin (as : List AP) (h : (pendingIdx as).isEmpty = true) : ∀ a ∈ as, AFin a := by
   intro a ha
-  obtain ⟨k, hk⟩ := mem_enumFrom as 0 a ha
+  obtain ⟨k, hk⟩ := mem_enumFrom_ex as 0 a ha
   simp only [pendingIdx, List.isEmpty_iff, List.map_eq_nil_iff, List.filter_eq_nil_iff] at h
   have := h (k, a) hk
   simp only [decide_eq_true_eq] at this
@@ -638,5 +638,204 @@ def Indep (fx : Fixes) (query : Seq) (quals : Option (List Nat)) (C : Cigar) : P
     noRefGo fx query quals anch rp qp vps Q C =
       (Q.flatMap (fun e => (noRefGo fx query quals anch rp qp [] [e] C).1) ++
        vps.flatMap (fun vp => (noRefGo fx query quals anch rp qp [vp] [] C).1), none)
+
+theorem indep_step (fx : Fixes) (h16 : fx.f16 = true) (query : Seq) (quals : Option (List Nat)) (op len : Nat)
+    (rest : Cigar) (hop : op ≤ 8) (hrest : ∀ p ∈ rest, p.1 ≤ 8) (ih : Indep fx query quals rest)
+    (anch : Bool) (rp qp : Nat) (vps : List VP) (Q : List Entry)
+    (hs : vps.Pairwise (fun a b => a.2.pos < b.2.pos)) (hge : ∀ vp ∈ vps, rp ≤ vp.2.pos)
+    (hwf : ∀ e ∈ Q, EntryWF e)
+    (hQ : ∀ e ∈ Q, (noRefGo fx query quals anch rp qp [] [e] ((op, len) :: rest)).2 = none)
+    (hV : ∀ vp ∈ vps, (noRefGo fx query quals anch rp qp [vp] [] ((op, len) :: rest)).2 = none) :
+    noRefGo fx query quals anch rp qp vps Q ((op, len) :: rest) =
+      (Q.flatMap (fun e => (noRefGo fx query quals anch rp qp [] [e] ((op, len) :: rest)).1) ++
+       vps.flatMap (fun vp => (noRefGo fx query quals anch rp qp [vp] [] ((op, len) :: rest)).1), none) := by
+  have hdw := dw_self vps rp hge
+  have hdw1 : ∀ vp ∈ vps, [vp].dropWhile (fun p => decide (p.2.pos < rp)) = [vp] := fun vp hvp =>
+    dw_self [vp] rp (by simpa using hge vp hvp)
+  by_cases hsk : op = 3 ∨ op = 4 ∨ op = 5 ∨ op = 6
+  · obtain ⟨a', rp', qp', e1⟩ := noRefGo_skipop fx query quals anch rp qp op len rest hsk
+    have hQ' : ∀ e ∈ Q, (noRefGo fx query quals a' rp' qp' [] [e] rest).2 = none := fun e he => by
+      have := hQ e he
+      rwa [e1, List.dropWhile_nil] at this
+    have hV' : ∀ vp ∈ vps, (noRefGo fx query quals a' rp' qp' [vp] [] rest).2 = none := fun vp hvp => by
+      have := hV vp hvp
+      rwa [e1, hdw1 vp hvp] at this
+    have fQ := flatMap_congr' Q (fun e => (noRefGo fx query quals anch rp qp [] [e] ((op, len) :: rest)).1)
+      (fun e => (noRefGo fx query quals a' rp' qp' [] [e] rest).1)
+      (fun e _ => by simp only [e1, List.dropWhile_nil])
+    have fV := flatMap_congr' vps (fun vp => (noRefGo fx query quals anch rp qp [vp] [] ((op, len) :: rest)).1)
+      (fun vp => (noRefGo fx query quals a' rp' qp' [vp] [] rest).1)
+      (fun vp hvp => by simp only [e1, hdw1 vp hvp])
+    rw [e1, hdw, ih a' rp' qp' vps Q hs hwf hQ' hV', fQ, fV]
+  · have h3 : op ≠ 3 := fun h => hsk (Or.inl h)
+    have h4 : op ≠ 4 := fun h => hsk (Or.inr (Or.inl h))
+    have h5 : op ≠ 5 := fun h => hsk (Or.inr (Or.inr (Or.inl h)))
+    have h6 : op ≠ 6 := fun h => hsk (Or.inr (Or.inr (Or.inr h)))
+    have hv := op_cases op hop h3 h4 h5 h6
+    have hv' : (isMatch op || op == 1 || op == 2) = true := by
+      rcases hv with h | rfl | rfl <;> simp [*]
+    have h3' : (op == 3) = false := by simpa using h3
+    have h4' : (op == 4) = false := by simpa using h4
+    have h56' : (op == 5 || op == 6) = false := by simp [h5, h6]
+    have step := fun vps Q => noRefGo_step fx query quals anch rp qp op len rest vps Q h3' h4' h56' hv'
+    have hend : op = 1 → refEndOf fx op len rp ≤ rp + 1 := by
+      intro h; subst h; simp [refEndOf, h16]
+    obtain ⟨A, B, hAB, hq1, hq2, hA2, hB⟩ :=
+      queueLoop_split (skOf fx anch op) op rp qp (refEndOf fx op len rp) hend vps hs hge
+    -- abbreviations
+    generalize hsk' : skOf fx anch op = sk at *
+    generalize hre : refEndOf fx op len rp = refEnd at *
+    have hAmem : ∀ vp ∈ A, vp ∈ vps := fun vp h => by rw [hAB]; exact List.mem_append_left _ h
+    have hBmem : ∀ vp ∈ B, vp ∈ vps := fun vp h => by rw [hAB]; exact List.mem_append_right _ h
+    -- the single walks
+    have sE : ∀ e, noRefGo fx query quals anch rp qp [] [e] ((op, len) :: rest) =
+        stepOut fx query quals op len rp qp rest [e] [] := by
+      intro e; rw [step]; simp [queueLoop]
+    have sV : ∀ vp ∈ vps, noRefGo fx query quals anch rp qp [vp] [] ((op, len) :: rest) =
+        stepOut fx query quals op len rp qp rest (queueLoop sk op rp qp refEnd [vp]).1
+          (queueLoop sk op rp qp refEnd [vp]).2 := by
+      intro vp hvp; rw [step, hdw1 vp hvp, List.nil_append]
+    have sB : ∀ vp ∈ B, noRefGo fx query quals anch rp qp [vp] [] ((op, len) :: rest) =
+        noRefGo fx query quals true (nextRp op len rp) (nextQp op len qp) [vp] [] rest := by
+      intro vp hvp
+      rw [sV vp (hBmem vp hvp), hB vp hvp]
+      simp [stepOut, mapM', popResolved]
+    have hA1 : ∀ vp ∈ A, (queueLoop sk op rp qp refEnd [vp]).1 = [] ∨
+        ∃ e, (queueLoop sk op rp qp refEnd [vp]).1 = [e] ∧ EntryWF e := by
+      intro vp hvp
+      rcases queueLoop_single sk op rp qp refEnd vp with h | h
+      · have := hA2 vp hvp
+        rw [h] at this; simp at this
+      · exact h.2
+    have sA : ∀ vp ∈ A, noRefGo fx query quals anch rp qp [vp] [] ((op, len) :: rest) =
+        stepOut fx query quals op len rp qp rest (queueLoop sk op rp qp refEnd [vp]).1 [] := by
+      intro vp hvp
+      rw [sV vp (hAmem vp hvp), hA2 vp hvp]
+    have sA1 : ∀ vp ∈ A, (noRefGo fx query quals anch rp qp [vp] [] ((op, len) :: rest)).1 =
+        (queueLoop sk op rp qp refEnd [vp]).1.flatMap
+          (fun e => (stepOut fx query quals op len rp qp rest [e] []).1) := by
+      intro vp hvp
+      rw [sA vp hvp]
+      rcases hA1 vp hvp with h | ⟨e, h, _⟩
+      · rw [h]; simp [stepOut, mapM', popResolved, noRefGo_empty fx query quals rest hrest]
+      · rw [h]; simp
+    -- every handled entry
+    have hk : ∀ e ∈ Q ++ A.flatMap (fun vp => (queueLoop sk op rp qp refEnd [vp]).1),
+        EntryWF e ∧ (stepOut fx query quals op len rp qp rest [e] []).2 = none := by
+      intro e he
+      rcases List.mem_append.1 he with he | he
+      · exact ⟨hwf e he, by rw [← sE]; exact hQ e he⟩
+      · obtain ⟨vp, hvp, hevp⟩ := List.mem_flatMap.1 he
+        rcases hA1 vp hvp with h | ⟨e0, h, hw0⟩
+        · rw [h] at hevp; cases hevp
+        · rw [h] at hevp
+          have : e = e0 := by simpa using hevp
+          subst this
+          refine ⟨hw0, ?_⟩
+          have := hV vp (hAmem vp hvp)
+          rwa [sA vp hvp, h] at this
+    have hg := fun e he => ok_of_single fx query quals op len rp qp rest hrest e (hk e he).1 (hk e he).2
+    -- the multi walk
+    have hwf2 : ∀ e ∈ (Q ++ A.flatMap (fun vp => (queueLoop sk op rp qp refEnd [vp]).1)).map
+        (hStep fx query quals op len qp), EntryWF e := by
+      intro e he
+      obtain ⟨e0, he0, rfl⟩ := List.mem_map.1 he
+      exact (hg e0 he0).2.2
+    obtain ⟨hflat, hsub⟩ := popResolved_flat
+      (fun e => (noRefGo fx query quals true (nextRp op len rp) (nextQp op len qp) [] [e] rest).1)
+      (fun e hw hp => by rw [noRefGo_finished fx query quals rest hrest e hw hp]) _ hwf2
+    have hsB : B.Pairwise (fun a b => a.2.pos < b.2.pos) :=
+      List.Pairwise.sublist (by rw [hAB]; exact List.sublist_append_right A B) hs
+    have hQp : ∀ e ∈ (popResolved ((Q ++ A.flatMap (fun vp => (queueLoop sk op rp qp refEnd [vp]).1)).map
+        (hStep fx query quals op len qp))).2,
+        (noRefGo fx query quals true (nextRp op len rp) (nextQp op len qp) [] [e] rest).2 = none := by
+      intro e he
+      obtain ⟨e0, he0, rfl⟩ := List.mem_map.1 (hsub e he)
+      rw [← (hg e0 he0).2.1]
+      exact (hk e0 he0).2
+    have hVp : ∀ vp ∈ B,
+        (noRefGo fx query quals true (nextRp op len rp) (nextQp op len qp) [vp] [] rest).2 = none := by
+      intro vp hvp
+      rw [← sB vp hvp]
+      exact hV vp (hBmem vp hvp)
+    have hih := ih true (nextRp op len rp) (nextQp op len qp) B _ hsB (fun e he => hwf2 e (hsub e he)) hQp hVp
+    rw [step, hdw, hq1, hq2]
+    unfold stepOut
+    rw [mapM'_map_ok _ (hStep fx query quals op len qp) _ (fun e he => (hg e he).1)]
+    dsimp only
+    rw [hih]
+    dsimp only
+    -- the right-hand side
+    have r1 : Q.flatMap (fun e => (noRefGo fx query quals anch rp qp [] [e] ((op, len) :: rest)).1) =
+        Q.flatMap (fun e => (stepOut fx query quals op len rp qp rest [e] []).1) :=
+      flatMap_congr' _ _ _ (fun e _ => by rw [sE])
+    have r2 : A.flatMap (fun vp => (noRefGo fx query quals anch rp qp [vp] [] ((op, len) :: rest)).1) =
+        (A.flatMap (fun vp => (queueLoop sk op rp qp refEnd [vp]).1)).flatMap
+          (fun e => (stepOut fx query quals op len rp qp rest [e] []).1) := by
+      rw [flatMap_flatMap']
+      exact flatMap_congr' _ _ _ (fun vp hvp => sA1 vp hvp)
+    have r3 : B.flatMap (fun vp => (noRefGo fx query quals anch rp qp [vp] [] ((op, len) :: rest)).1) =
+        B.flatMap (fun vp =>
+          (noRefGo fx query quals true (nextRp op len rp) (nextQp op len qp) [vp] [] rest).1) :=
+      flatMap_congr' _ _ _ (fun vp hvp => by rw [sB vp hvp])
+    have r4 : (Q ++ A.flatMap (fun vp => (queueLoop sk op rp qp refEnd [vp]).1)).flatMap
+          (fun e => (stepOut fx query quals op len rp qp rest [e] []).1) =
+        ((Q ++ A.flatMap (fun vp => (queueLoop sk op rp qp refEnd [vp]).1)).map
+          (hStep fx query quals op len qp)).flatMap
+          (fun e => (noRefGo fx query quals true (nextRp op len rp) (nextQp op len qp) [] [e] rest).1) := by
+      rw [flatMap_map']
+      exact flatMap_congr' _ _ _ (fun e he => by rw [(hg e he).2.1])
+    conv => rhs; rw [hAB, List.flatMap_append, r1, r2, r3, ← List.append_assoc, ← List.flatMap_append, r4, ← hflat]
+    rw [List.append_assoc]
+
+theorem noRefGo_indep_all (fx : Fixes) (h16 : fx.f16 = true) (query : Seq) (quals : Option (List Nat)) :
+    ∀ (C : Cigar), (∀ p ∈ C, p.1 ≤ 8) → Indep fx query quals C := by
+  intro C
+  induction C with
+  | nil =>
+    intro _ anch rp qp vps Q _ _ _ _
+    simp [noRefGo, flushQueue]
+  | cons x rest ih =>
+    intro hC anch rp qp vps Q hs hwf hQ hV
+    obtain ⟨op, len⟩ := x
+    have hop : op ≤ 8 := hC (op, len) (by simp)
+    have hrest : ∀ p ∈ rest, p.1 ≤ 8 := fun p hp => hC p (by simp [hp])
+    have hge := dropWhile_ge_sorted vps (List.Pairwise.imp (fun h => Nat.le_of_lt h) hs) rp
+    have hs' : (vps.dropWhile (fun p => decide (p.2.pos < rp))).Pairwise (fun a b => a.2.pos < b.2.pos) :=
+      List.Pairwise.sublist (List.dropWhile_sublist _) hs
+    have hV' : ∀ vp ∈ vps.dropWhile (fun p => decide (p.2.pos < rp)),
+        (noRefGo fx query quals anch rp qp [vp] [] ((op, len) :: rest)).2 = none :=
+      fun vp hvp => hV vp (mem_dropWhile_mem _ _ _ hvp)
+    rw [noRefGo_dw, flatMap_dropWhile' (fun p => decide (p.2.pos < rp)) _ vps (fun vp _ hp => by
+      have hlt : vp.2.pos < rp := by simpa using hp
+      rw [noRefGo_dw, dw_drop vp rp hlt, noRefGo_empty fx query quals _ hC])]
+    exact indep_step fx h16 query quals op len rest hop hrest (ih hrest) anch rp qp _ Q hs' hge hwf hQ hV'
+
+/-- INDEPENDENCE: the walk over a strictly sorted list of variants (and a queue of well-formed entries) yields the
+concatenation of the outputs of the walks that carry one queue entry / one variant alone -/
+theorem noRefGo_independent (fx : Fixes) (h16 : fx.f16 = true) (query : Seq) (quals : Option (List Nat))
+    (cigar : Cigar) (hops : ∀ p ∈ cigar, p.1 ≤ 8) (anch : Bool) (rp qp : Nat)
+    (vps : List VP) (hs : vps.Pairwise (fun a b => a.2.pos < b.2.pos))
+    (Q : List Entry) (hwf : ∀ e ∈ Q, EntryWF e)
+    (hQ : ∀ e ∈ Q, (noRefGo fx query quals anch rp qp [] [e] cigar).2 = none)
+    (hV : ∀ vp ∈ vps, (noRefGo fx query quals anch rp qp [vp] [] cigar).2 = none) :
+    noRefGo fx query quals anch rp qp vps Q cigar =
+      (Q.flatMap (fun e => (noRefGo fx query quals anch rp qp [] [e] cigar).1) ++
+       vps.flatMap (fun vp => (noRefGo fx query quals anch rp qp [vp] [] cigar).1), none) :=
+  noRefGo_indep_all fx h16 query quals cigar hops anch rp qp vps Q hs hwf hQ hV
+
+theorem detectNoRef_independent (fx : Fixes) (h16 : fx.f16 = true) (variants : List Variant) (first start : Nat)
+    (cigar : Cigar) (query : Seq) (quals : Option (List Nat)) (hops : ∀ p ∈ cigar, p.1 ≤ 8) (vps : List VP)
+    (hvps : vps = (((nonOverlapping (variants.map normalize)).filterMap
+      (fun id => ((variants.map normalize)[id]?).map (fun v => (id, v)))).drop first).dropWhile
+        (fun p => p.2.pos < start))
+    (hs : vps.Pairwise (fun a b => a.2.pos < b.2.pos))
+    (hV : ∀ vp ∈ vps, (noRefGo fx query quals false start 0 [vp] [] cigar).2 = none) :
+    detectNoRef fx variants first start cigar query quals =
+      (vps.flatMap (fun vp => (noRefGo fx query quals false start 0 [vp] [] cigar).1), none) := by
+  unfold detectNoRef
+  dsimp only
+  rw [← hvps, noRefGo_independent fx h16 query quals cigar hops false start 0 vps hs [] (by simp) (by simp) hV]
+  simp
 
 end WhVerif.C06
